@@ -135,7 +135,7 @@ def keyDefOfJson (j : Json) : Except String KeyDef := do
   pure { hash := h, range := r }
 
 def indexDefOfJson (j : Json) : Except String IndexDef := do
-  pure { name := ← hexFld j "name", key := ← keyDefOfJson (← fld j "key"), throughput := boolFld j "tp" }
+  pure { name := ← hexFld j "name", key := ← keyDefOfJson (← fld j "key"), throughput := boolFld j "tp", noDefs := boolFld j "noDefs" }
 
 def indexDefsOpt (j : Json) (k : String) : Except String (Option (List IndexDef)) :=
   match fldOpt j k with
